@@ -49,6 +49,9 @@ def cells(tier):
     for size in [1, 2]:
         sc = scen(pool(size), [[A("X", size)], [A("A", 2), cgroup("A"), A("B", 3)], [GAC]], outcomes=["ret"])
         out.append(cell(f"s{size} X{size}|A2,cgroupA,B3 (auto name re-used at once)|gac", sc, MON))
+    for size in [1, 2]:
+        sc = scen(pool(size), [[A("A", 2, args=1, kwargs=1, partial=True, name="pg")], [A("B", 1)], [LOCK]], outcomes=["ret"])
+        out.append(cell(f"s{size} A2 func=partial(k0 frozen) kwargs k0|B1 lock", sc, MON))
     # SimpleTaskPool.start
     for size in [1, 2, "inf"]:
         for dn, da in {"none": [], "lock": [[LOCK]], "gac": [[GAC]], "stop1": [[["stop", 1]]]}.items():
